@@ -58,6 +58,19 @@ pub open spec fn stored_range(t: RustType, lo: int, hi: int) -> bool {
     }
 }
 
+/// extensible INTEGER: the Range stored in the 64-bit type is the declared root range (an absent upper bound is the type's maximum), marked extensible
+pub open spec fn stored_range_ext(t: RustType, min: Option<i64>, max: Option<i64>) -> bool {
+    let hi: int = match max { Some(x) => x as int, None => i64::MAX as int };
+    match t {
+        RustType::I64(r) => (min matches Some(m) ==> r.0 == m) && r.1 == hi && r.2,
+        RustType::U64(r) => r.2
+            && (r.0 matches Some(a) ==> (min matches Some(m) && a as int == m as int))
+            && (r.1 matches Some(b) ==> (max matches Some(m) && b as int == m as int))
+            && (r.0 is None ==> (min matches Some(m) ==> m == 0)) && (r.1 is None ==> hi == i64::MAX),
+        _ => false,
+    }
+}
+
 pub proof fn lemma_pow2i_values()
     ensures pow2i(7) == 128, pow2i(8) == 256, pow2i(15) == 32768, pow2i(16) == 65536, pow2i(31) == 0x8000_0000, pow2i(32) == 0x1_0000_0000,
 {
